@@ -28,6 +28,7 @@ import (
 	"strings"
 	"time"
 
+	"google.golang.org/protobuf/encoding/protowire"
 	"google.golang.org/protobuf/proto"
 	"google.golang.org/protobuf/types/known/timestamppb"
 
@@ -161,6 +162,11 @@ type verRes struct {
 // verOp: one Verify call against the model; returns whether the real code accepted.
 func (e *env) verOp(m *cryptopb.SignedMessage, key crypto.PublicKey, ad [][]byte, tag string, asOp bool) verRes {
 	var res verRes
+	// Verify gets a private copy; the pristine message is used for the facts and to check that
+	// verification does not modify its input
+	orig := m
+	m = &cryptopb.SignedMessage{HeaderAndBody: append([]byte(nil), orig.HeaderAndBody...),
+		Signature: append([]byte(nil), orig.Signature...)}
 	ans, _ := vlib.Safe(func() string {
 		got, err := signed.Verify(m, key, ad...)
 		if err != nil {
@@ -170,6 +176,12 @@ func (e *env) verOp(m *cryptopb.SignedMessage, key crypto.PublicKey, ad [][]byte
 		return "ok " + hdrWords(int(got.Header.SignatureAlgorithm), got.Header.VerificationKeyID,
 			got.Header.Timestamp, got.Header.Metadata, got.Header.AssociatedDataLength, got.Body)
 	})
+	if !bytes.Equal(m.HeaderAndBody, orig.HeaderAndBody) || !bytes.Equal(m.Signature, orig.Signature) {
+		e.Violate("C38/verify-modified-input", "Verify modified the bytes of the message it was given ("+tag+")",
+			map[string]any{"hb_before": vlib.Hex(orig.HeaderAndBody), "hb_after": vlib.Hex(m.HeaderAndBody),
+				"sig_before": vlib.Hex(orig.Signature), "sig_after": vlib.Hex(m.Signature), "ad": adWords(ad), "verify": ans})
+	}
+	m = orig
 	if strings.HasPrefix(ans, "PANIC") {
 		e.Violate("C38/panic", "Verify panicked: "+ans, map[string]any{"hb": vlib.Hex(m.HeaderAndBody),
 			"sig": vlib.Hex(m.Signature), "ad": adWords(ad)})
@@ -309,6 +321,23 @@ func rebuildHB(h hdrT, body []byte) []byte {
 		Timestamp: ts, Metadata: h.meta, AssociatedDataLength: int32(h.adLen)})
 	hb, _ := proto.Marshal(&cryptopb.HeaderAndBody{Header: rawHdr, Body: body})
 	return hb
+}
+
+// swapFields re-encodes a canonical HeaderAndBody with the body field before the header field
+// (nil if one of them is absent): same length, same parsed content, different bytes.
+func swapFields(hb []byte) []byte {
+	var outer cryptopb.HeaderAndBody
+	if proto.Unmarshal(hb, &outer) != nil || len(outer.Header) == 0 || len(outer.Body) == 0 {
+		return nil
+	}
+	out := protowire.AppendTag(nil, 2, protowire.BytesType)
+	out = protowire.AppendBytes(out, outer.Body)
+	out = protowire.AppendTag(out, 1, protowire.BytesType)
+	out = protowire.AppendBytes(out, outer.Header)
+	if len(out) != len(hb) || bytes.Equal(out, hb) {
+		return nil
+	}
+	return out
 }
 
 func sameHeader(got *signed.Message, h hdrT, body []byte) bool {
@@ -542,6 +571,12 @@ func (e *env) oneMessage(i int, perRegion int) {
 		m = clone()
 		m.HeaderAndBody = rebuildHB(h, append(append([]byte(nil), body...), 0))
 		must("body-grown", "ver/mut-body", m, key.Public(), ad, true)
+	}
+	// length-preserving re-encoding: the same header and body, fields of HeaderAndBody in the opposite order
+	if sw := swapFields(msg.HeaderAndBody); sw != nil {
+		m := clone()
+		m.HeaderAndBody = sw
+		must("hb-reencoded fields of HeaderAndBody swapped (same length, same parsed content)", "ver/hb-reencoded", m, key.Public(), ad, true)
 	}
 	// crafted boundary shift: associated data that starts with encoded HeaderAndBody fields (a second
 	// `header` field whose associated_data_length matches what remains, optionally preceded by a second
